@@ -636,3 +636,68 @@ def atomic_cas(ex, args, name):
         ex.store(args[0], args[2])
         return True
     return False
+
+
+# ---- sync.Map: an association list per map value (keys compared with Go equality on interface values)
+def _syncmap(ex, p):
+    key = ('syncmap', id(p.base if isinstance(p, Ptr) else p), getattr(p, 'key', None))
+    m = ex.env.get(key)
+    if m is None:
+        m = ex.env[key] = MapObj()
+    return m
+
+
+@intr('(*sync.Map).Load')
+def syncmap_load(ex, args, name):
+    m = _syncmap(ex, args[0])
+    for k, v in m.ents:
+        if ex.branch(ex.eq(k, args[1])):
+            return (v, True)
+    return (None, False)
+
+
+@intr('(*sync.Map).Store')
+def syncmap_store(ex, args, name):
+    m = _syncmap(ex, args[0])
+    for e in m.ents:
+        if ex.branch(ex.eq(e[0], args[1])):
+            e[1] = args[2]
+            return None
+    m.ents.append([args[1], args[2]])
+    return None
+
+
+@intr('(*sync.Map).LoadOrStore')
+def syncmap_loadorstore(ex, args, name):
+    v, ok = syncmap_load(ex, args[:2], name)
+    if ok:
+        return (v, True)
+    syncmap_store(ex, args, name)
+    return (args[2], False)
+
+
+@intr('(*sync.Map).Delete')
+def syncmap_delete(ex, args, name):
+    m = _syncmap(ex, args[0])
+    for i, (k, v) in enumerate(list(m.ents)):
+        if ex.branch(ex.eq(k, args[1])):
+            del m.ents[i]
+            break
+    return None
+
+
+@intr('(*sync.Map).LoadAndDelete')
+def syncmap_loadanddelete(ex, args, name):
+    v, ok = syncmap_load(ex, args[:2], name)
+    if ok:
+        syncmap_delete(ex, args, name)
+    return (v, ok)
+
+
+@intr('(*sync.Map).Range')
+def syncmap_range(ex, args, name):
+    m = _syncmap(ex, args[0])
+    for k, v in list(m.ents):
+        if not ex.branch(ex.call_value(args[1], [k, v])):
+            break
+    return None
